@@ -96,3 +96,13 @@ Proof. split; reflexivity. Qed.
 (* carried stories / items are exposed with their content: the very elements of the message *)
 Theorem carried_exposed tag b x : In x (carried tag b) <-> In x (kids_of b) /\ has_tag tag x = true.
 Proof. unfold carried, findall. apply filter_In. Qed.
+
+(* with the evaluation of self.stories taken into account (RunningOrder.inspect walks them) *)
+Theorem inspect_o_no_raise o k b :
+  inspect_ok k b = true -> (k = RunningOrder -> ro_stories_err o b = None) ->
+  exists ls, inspect_o o k b = inr ls.
+Proof.
+  intros H Hst. destruct (inspect_no_raise k b H) as (ls & Hls). exists ls.
+  unfold inspect_o. destruct k; try exact Hls.
+  destruct (find t_roSlug (kids_of b)); [|exact Hls]. now rewrite (Hst eq_refl).
+Qed.
